@@ -291,6 +291,22 @@ func (eng *Engine) solve(o *Obligation, timeoutMs int, all bool) {
 		o.Status, o.Solver, o.TimeMs = st, sv, ms
 		return
 	}
+	if all && !o.ExpectSat {
+		// thorough tier: every solver has been asked about the whole script and
+		// none was definitive. Before that counts as a failure, try what the
+		// quick tier tries first: the script without the quantified assumptions
+		// that do not mention anything the goal mentions (fewer hypotheses, so
+		// `unsat` there is conclusive). The solvers' quantifier instantiation is
+		// sensitive to the order of assertions, which varies from run to run.
+		if ft, dropped := smtTextFiltered(o); dropped {
+			fileA := write(ft, ".a")
+			if st, sv, ms := race(fileA, solvers, timeoutMs/2, "unsat", "/a"); st == "unsat" {
+				o.Status, o.Solver, o.TimeMs = st, sv, ms
+				return
+			}
+		}
+		all = false // and then the retry stages below
+	}
 	if !all && !eng.noRetry[o.Group] && !(eng.updatingLedger && !alwaysClaimed(o.Kind)) {
 		// No definitive answer. Before this is reported as a failed obligation,
 		// try once more with three times the budget: an obligation that needs a
